@@ -22,7 +22,14 @@ type C06Case struct {
 	Encoded string           `json:"encoded"`
 }
 
+// otherConfigured are OTHER configured strings of the SP (entity ID, ACS, IdP issuer): plausible audience
+// values that are nevertheless not the configured audience URI.
+var otherConfigured []string
+
 func genAudienceValue(t *rapid.T, uri string) string {
+	if len(otherConfigured) > 0 && rapid.IntRange(0, 5).Draw(t, "audOtherConfigured") == 0 {
+		return rapid.SampledFrom(otherConfigured).Draw(t, "audOther")
+	}
 	switch rapid.IntRange(0, 9).Draw(t, "audKind") {
 	case 0, 1, 2:
 		return uri
@@ -52,6 +59,10 @@ func genC06(t *rapid.T) C06Case {
 	case 2:
 		sp.Audience = "HTTPS://SP.example.com/Metadata/"
 	}
+	if rapid.Bool().Draw(t, "noSPIssuer") {
+		sp.SPIssuer = ""
+	}
+	otherConfigured = []string{sp.SPIssuer, sp.ACS, sp.IdPIssuer, sp.SLO}
 	c := C06Case{SP: sp, Mode: rapid.SampledFrom([]string{"response", "assertions", "both", "skip"}).Draw(t, "mode"), Others: rapid.IntRange(0, 2).Draw(t, "others")}
 	c.Window = rapid.SampledFrom([]string{"in", "in", "not-yet-valid", "conditions-expired"}).Draw(t, "window")
 	if c.Mode == "skip" {
@@ -248,6 +259,16 @@ func TestC06_Grid(t *testing.T) {
 				c.First.ProxyCount = h.S(fmt.Sprint(i))
 				c.First.ProxyAudience = []string{"urn:a", uri}
 			}
+			finishC06(&c, func(err error) { t.Fatalf("harness: %v", err) })
+			cases = append(cases, c)
+		}
+	}
+	for i, uri := range []string{"", "https://sp.example.com/audience"} {
+		for _, l := range [][][]string{{{"https://sp.example.com/metadata"}}, {{"https://sp.example.com/metadata", "urn:x"}}, {{uri}, {"https://sp.example.com/metadata"}}, {{"https://sp.example.com/saml/acs"}}} {
+			sp := h.BaseSP()
+			sp.Audience = uri
+			c := C06Case{SP: sp, Mode: []string{"response", "assertions"}[i%2], Window: "in"}
+			c.First.Audiences = l
 			finishC06(&c, func(err error) { t.Fatalf("harness: %v", err) })
 			cases = append(cases, c)
 		}
